@@ -109,7 +109,7 @@ Proof. exact cached_rep_number_contig. Qed.
     adjusted, nothing is checked. *)
 Theorem C15_contiguous_time : forall tfile es dsd segs dsd',
   time_loop tfile es 0 dsd [] = Ok (segs, dsd') ->
-  exists rows, file_table (map tfile (visits es 0)) dsd = Some (rows, dsd') /\ segs = rows /\
+  exists rows, file_table (map tfile (visits es 0)) dsd = Ok (rows, dsd') /\ segs = rows /\
                (ccontig segs <-> ccontig rows).
 Proof. exact time_table_contig_iff. Qed.
 
